@@ -467,12 +467,31 @@ func (r *rng) genFit(cfg mesgGenCfg, nmsgs int, withDev bool) []proto.Message {
 		dfs = d
 	}
 	ts := &tsGen{cur: 1000000000 + uint32(r.intn(1000)), mode: cfg.tsMode}
+	redescribe := withDev && len(dfs) > 0 && r.chance(1, 3)
 	for i := 0; i < nmsgs; i++ {
+		if redescribe && i == nmsgs/2 {
+			// the same (developer index, field number) described again with another base type: the first description stays in force
+			d := dfs[r.intn(len(dfs))]
+			bt := unknownBaseTypes[r.intn(len(unknownBaseTypes))]
+			if bt != d.base {
+				fd := proto.Message{Num: mesgnum.FieldDescription}
+				add := func(num byte, v proto.Value) {
+					f := factory.CreateField(mesgnum.FieldDescription, num)
+					f.Value = v
+					fd.Fields = append(fd.Fields, f)
+				}
+				add(fieldnum.FieldDescriptionDeveloperDataIndex, proto.Uint8(idx))
+				add(fieldnum.FieldDescriptionFieldDefinitionNumber, proto.Uint8(d.num))
+				add(fieldnum.FieldDescriptionFitBaseTypeId, proto.Uint8(uint8(bt)))
+				add(fieldnum.FieldDescriptionFieldName, proto.SliceString([]string{"again"}))
+				msgs = append(msgs, fd)
+			}
+		}
 		m := r.genMessage(cfg, ts)
 		if len(m.Fields) == 0 {
 			continue
 		}
-		if withDev && r.chance(1, 2) {
+		if withDev && (redescribe || r.chance(1, 2)) {
 			for _, d := range dfs {
 				if r.chance(1, 2) {
 					arr := r.chance(1, 4)
